@@ -46,6 +46,8 @@ def gen_statement(R, events, allow_datetime=True):
             if v % 1000 == 0 and R.random() < 0.5:
                 frac = False
             return 'datetime %s %s' % (op, _fmt_dt(v, frac)), [1, op, v]
+        if R.random() < 0.15:
+            return 'origin_time %s %d.5' % (op, v), [1, op, v + 0.5]       # a threshold between two milliseconds
         return 'origin_time %s %d' % (op, v), [1, op, v]
     x = R.random()
     v = float(base)
@@ -88,6 +90,11 @@ def generate(R, tier, focus):
         drop = set(R.sample(cand, R.randint(1, max(1, len(cand) // 2))))
         region2['holes'] = region2['holes'] + [o for i, o in enumerate(region2['origins']) if i in drop]
         region2['origins'] = [o for i, o in enumerate(region2['origins']) if i not in drop]
+    if R.random() < 0.3 and len(region2['origins']) > 1:
+        # cells switched off by a mask (as a forecast file with flag-0 cells produces): outside the region
+        region2['mask'] = [0 if R.random() < 0.3 else 1 for _ in region2['origins']]
+        if not any(region2['mask']):
+            region2['mask'][0] = 1
     bind_region = R.choice((0, 0, 1, 2))
     history = [(list(default_filters), 'list')]
     for _ in range(n_ops):
@@ -174,6 +181,8 @@ def model_rows(events):
 
 
 def rows_of(cat):
+    if getattr(cat, 'catalog', None) is None:
+        return []
     return [tuple(r) for r in cat.catalog.tolist()]
 
 
@@ -220,13 +229,31 @@ def _execute(scn, ctx, store, clock):
         evs = scn['events'] if rows is None else None
         if rows is None:
             return build.make_catalog(evs, region=regions.get(bind), name='simcat',
-                                      filters=list(scn['default_filters']))
+                                      filters=stmts_arg(list(scn['default_filters']), 'list'))
         return build.make_catalog([list(r) for r in rows], region=None, name='simcat')
 
     def clone(rows):
         from csep.core.catalogs import CSEPCatalog
         data = [(r[0], r[1], r[2], r[3], r[4], r[5]) for r in rows]
         return CSEPCatalog(data=data, name='twin')
+
+    arg_pool = {}          # literal statements -> the one list / tuple object handed to the library for them
+
+    def stmts_arg(stmts, form):
+        if form == 'str':
+            return stmts[0]
+        key = (form, tuple(stmts))
+        if key not in arg_pool:
+            arg_pool[key] = tuple(stmts) if form == 'tuple' else list(stmts)
+        return arg_pool[key]
+
+    def args_untouched(oi_):
+        for (form, lit), obj in arg_pool.items():
+            if list(obj) != list(lit):
+                ctx.violate('C04', 'argument_mutated', 'statement-list-passed-by-the-caller-was-modified',
+                            {'op': oi_, 'passed': list(lit), 'now': list(obj)})
+                return False
+        return True
 
     handles = [fresh()]
     models_ = [list(base_rows)]
@@ -270,7 +297,7 @@ def _execute(scn, ctx, store, clock):
         before_fp = build.cat_fingerprint(h)
         label = kind
         if kind == 'FILTER':
-            arg = _stmts_arg(op['stmts'], op['form'])
+            arg = stmts_arg(op['stmts'], op['form'])
             label = 'FILTER:%s:%s' % (op['form'], 'in_place' if op['in_place'] else 'copy')
             r = call(h.filter, arg, in_place=op['in_place'])
             if r[0] != 'ok':
@@ -447,6 +474,8 @@ def _execute(scn, ctx, store, clock):
                 return
         ctx.log('op', oi, label, [[r[0] for r in rows_of(x)] for x in handles])
         if not check_all(oi, label):
+            return
+        if not args_untouched(oi):
             return
         ctx.state((len(handles), tuple(min(3, len(x)) for x in models_[:4])))
     ctx.sim_time_ms += (clock.max_us - clock.min_us) // 1000
